@@ -78,7 +78,10 @@ def new (sign : Int) (coef : Nat) (exp : Int) : Dnum :=
         let p := maxShift coef
         (coef * pow10 p, exp - p)
       else (coef, exp)
-    if exp > expMax then inf sign else ⟨coef, sign, exp⟩
+    -- REPAIRED (fixes/C27-new-underflow.patch): the current code has no check here and
+    -- `int8(exp)` wraps around, e.g. New(+1, 7, -128) = 7e112
+    if exp < expMin then zero
+    else if exp > expMax then inf sign else ⟨coef, sign, exp⟩
 
 /-- `FromInt(n int64)` -/
 def fromInt (n : Int) : Dnum :=
